@@ -42,7 +42,7 @@ ID = "C20"
 LEAN_TARGETS = ["RV.C20.Props", "RV.C20.Audit"]
 AUDIT = "RV/C20/Audit.lean"
 DRIVER = "drv_c20"
-CASES = {"quick": 170, "thorough": 6000, "search": 3000}
+CASES = {"quick": 600, "thorough": 12000, "search": 4000}
 RULE = ("random histories (3-11 ops) of add / addN / pattern remove / remove_graph / Dataset.graph / update(text) / "
         "commit / rollback and reads (8 pattern shapes, len, in, contexts, query, LIMIT/OFFSET slices) against a "
         "loop-back SPARQL endpoint, through Graph / Dataset / ConjunctiveGraph / read-only Dataset, method GET|POST|"
@@ -153,6 +153,9 @@ def gen_case(rng, tier, i):
     init = []
     for _ in range(rng.randint(0, 5) if cfg != "ro" else rng.randint(2, 7)):
         q = _triple(rng, objs, False) + [rng.choice(all_graphs)]
+        if init and rng.random() < 0.35:   # same subject/predicate, other object, (often) other graph
+            b = rng.choice(init)
+            q = [b[0], b[1], rng.choice(objs), rng.choice(all_graphs)]
         if q not in init:
             init.append(q)
             present.append(q)
@@ -220,7 +223,9 @@ def gen_case(rng, tier, i):
                 t = some_triple(g)
                 ops.append(["contains"] + (t if rng.random() < 0.7 else _mask(rng, t)) + [g])
             elif k < 0.74 and cfg != "graph":
-                ops.append(["contexts", None if rng.random() < 0.5 else some_triple()])
+                falsy = [q[:3] for q in present if q[2] in (20, 21, 22)]
+                ops.append(["contexts", None if rng.random() < 0.4 else
+                            (list(rng.choice(falsy)) if falsy and rng.random() < 0.6 else some_triple())])
             elif k < 0.93:
                 kind = rng.choice(["spo", "pfx", "bind", "ask", "named"])
                 if kind == "named" and cfg == "graph":
